@@ -344,6 +344,34 @@ def run(ctx):
                       "helper %s%r: python gives %s, model differs" % (obj[0], obj[1:], b),
                       dict(kind="helper", call=[str(x) for x in obj], python=b, model_outputs=out), found_input=False)
 
+    # --- (i') header_generator._cpp_integer_type_for_range against the model, on every pair of type-boundary values
+    from compiler.back_end.cpp import header_generator as _hg
+    edges = sorted({s_ * (2 ** k) + d for k in (0, 7, 8, 15, 16, 31, 32, 62, 63, 64) for s_ in (1, -1) for d in (-2, -1, 0, 1, 2)} | {0})
+    tcases = []
+    for lo in edges:
+        for hi in edges:
+            if lo > hi:
+                continue
+            t = _hg._cpp_integer_type_for_range(lo, hi)
+            exp = "None" if t is None else "(Some (%s, %s))" % ("false" if "uint" in t else "true", "32" if "32" in t else "64")
+            tcases.append(("(%s, %s)" % (irx._z(lo), irx._z(hi)), exp, (lo, hi, t)))
+    runner = fw.CoqCases(ctx, "cpptype", HEADER, "(fun p => cpp_type_for_range (fst p) (snd p))",
+                         "(optb (fun a b => Bool.eqb (fst a) (fst b) && (snd a =? snd b)))", "(Z * Z)", "(option (bool * Z))", shard=2000)
+    badt = runner.run(tcases)
+    for a, b, obj in tcases:
+        ctx.case(("t", obj[0], obj[1]), nontrivial=True)
+    ctx.obligation("correspondence: _cpp_integer_type_for_range agrees with the model on %d boundary ranges" % len(tcases), not badt)
+    for idx, out in badt[:4]:
+        lo, hi, t = tcases[idx][2]
+        # the property's clause: the chosen type must contain the whole range
+        rng_of = {"::std::int32_t": (-2**31, 2**31 - 1), "::std::uint32_t": (0, 2**32 - 1), "::std::int64_t": (-2**63, 2**63 - 1),
+                  "::std::uint64_t": (0, 2**64 - 1)}
+        bad_type = t is not None and not (rng_of[t][0] <= lo and hi <= rng_of[t][1])
+        ctx.violation("cpp-type-does-not-contain-range" if bad_type else "cpp-type-correspondence",
+                      "_cpp_integer_type_for_range(%d, %d) = %s%s" % (lo, hi, t, " does not contain the range" if bad_type else " differs from the model"),
+                      dict(kind="call", function="header_generator._cpp_integer_type_for_range", minimum=lo, maximum=hi, result=t,
+                           model=out[:300]), found_input=bad_type)
+
     # --- (ii) expressions ------------------------------------------------------
     sources = []
     for p in sorted(glob.glob(os.path.join(fw.REPO, "testdata", "*.emb"))):
